@@ -32,6 +32,13 @@ CLAIMED = {
              '(none, valid, invalid address). Counterexamples are replayed natively by reproducing every predicted balance and reserve.',
         ref='DESIGN.md §6 C04',
         note=TRUST + 'Addresses and denoms are concrete labels; amounts are symbolic.'),
+    'C05': dict(
+        text='Inductive step obligations on every farm-manager message (position create / expand / close full+partial / withdraw / emergency withdraw, claim with and '
+             'without until_epoch, farm create / expand / close incl. a farm whose reward denom is an LP denom) from a symbolic state satisfying: balance = recorded '
+             'positions + unclaimed farm budgets + excess X >= 0 per denom. After the message the balance still covers the liabilities and X never decreases (equal '
+             'except for penalty dust).',
+        ref='DESIGN.md §6 C05',
+        note=TRUST + 'Two explicit positions and two farms plus the symbolic excess; window of 10 epochs for claims.'),
     'C06': dict(
         text='Bounded histories of claims by two explicit users (plus an aggregated remainder of other users) on one farm, executed through the public '
              'Claim message from symbolic weights/rates: every rightful claim succeeds in any order, each user is paid exactly the ledger sum of their '
@@ -116,6 +123,14 @@ CLAIMED = {
         ref='DESIGN.md §6 C18',
         note='Trusted: rustc MIR lowering, the MIR executor and its library models (validated differentially against the native build), z3. '
              'The epoch configuration is assumed to satisfy duration >= 86400 (established by instantiate/update_config).'),
+    'C20': dict(
+        text='Fault injection through the chain model: for representative messages of both managers the k-th internal bank / token-factory / contract call is made to '
+             'fail (k symbolic over the positions); decided on the real code: every emitted sub-message is reply-never or reply-on-success (pool manager) / reply-never or '
+             'the close-farm refund with reply-on-error id 1 (farm manager), hence any other internal failure fails the whole message; the failing close-farm refund '
+             'neither blocks the close (manual or automatic) nor touches other farms, positions or balances. State equality after a failed message follows from the '
+             'platform rollback rule, which is assumed.',
+        ref='DESIGN.md §6 C20',
+        note=TRUST + 'Routes / single-asset deposits use the pricing kernel as an uninterpreted function here (control flow only).'),
 }
 NOT_APPLICABLE = {
     'C19': 'numerical accuracy of three 255-round Newton iterations over 256/512-bit integers against the exact root: nested non-linear integer '
